@@ -130,10 +130,42 @@ def leafOk : LeafKind → Text → Bool
   | .str, t => 2 ≤ t.length && t.head? == some '"' && t.getLast? == some '"'
   | .path, t => (t.contains '/' || t.head? == some '<') && t.all fun c => !isWsChar c
 
+/-- `splitGo` of `Model/AttrPath.lean` (the loop of `binding._split_attrpath`) by structural
+    recursion on a fuel, so that closed instances evaluate; `splitAttrpathF = splitAttrpath` is
+    `Lemmas/FragParse.lean: splitAttrpathF_eq`. -/
+def splitGoF : Nat → SplitSt → Text → Except Err SplitSt
+  | 0, st, _ => .ok st
+  | _ + 1, st, [] => .ok st
+  | fuel + 1, st, ch :: rest =>
+    if st.depth > 0 then splitGoF fuel (splitInterpStep st ch) rest
+    else if st.inQuotes then
+      if !st.escape && ch = '$' && rest.head? = some '{' then
+        splitGoF fuel { st with buf := st.buf ++ ['$', '{'], depth := 1 } rest.tail
+      else splitGoF fuel (splitQuoteStep st ch) rest
+    else if ch = '"' then splitGoF fuel { st with inQuotes := true, buf := st.buf ++ [ch] } rest
+    else if ch = '$' && rest.head? = some '{' then
+      splitGoF fuel { st with buf := st.buf ++ ['$', '{'], depth := 1 } rest.tail
+    else if ch = '.' then
+      match splitFlush st with
+      | .ok st' => splitGoF fuel st' rest
+      | .error e => .error e
+    else splitGoF fuel { st with buf := st.buf ++ [ch] } rest
+
+/-- `_split_attrpath(text)` -/
+def splitAttrpathF (t : Text) : Except Err (List Text) :=
+  match splitGoF (t.length + 1) {} t with
+  | .error e => .error e
+  | .ok st =>
+    if st.depth > 0 then .error .value
+    else if st.inQuotes then .error .value
+    else match splitFlush st with
+      | .ok st' => .ok st'.segs
+      | .error e => .error e
+
 /-- a single-segment attribute name: the splitter of `binding._split_attrpath` returns it whole;
     it is not empty and has no line break in it -/
 def nameOk (n : Text) : Bool :=
-  decide (splitAttrpath n = .ok [n]) && !n.isEmpty && !containsNL n
+  decide (splitAttrpathF n = .ok [n]) && !n.isEmpty && !containsNL n
 
 def isLineCmt (t : Text) : Bool := startsWith ['#'] t
 
